@@ -30,6 +30,9 @@ FOUND = []
 STATS = {"rp": 0, "rproto": 0}
 
 
+DOCUMENTED_DEFAULTS_IN_FORCE = set()
+
+
 class RangeBroken(Exception):
     """icontract post-condition failed."""
 
@@ -120,6 +123,8 @@ def _rp_post(srcports, dstports, line, platform, port_nr, port_count, port_range
     platform = platform or "ios"
     if platform not in ("ios", "nxos"):
         return True
+    if "port_range" in DOCUMENTED_DEFAULTS_IN_FORCE:
+        port_range = True  # the caller left the keyword out: the documented default (True) is what the lines are judged by
     lines = list(result)
     count = int(port_count or 1)
     if srcports and dstports:
@@ -229,10 +234,19 @@ def execute(ctx, case: dict) -> None:
 
     if case["k"] == "ports":
         expect = _expect_refusal(case)
+        kwargs = dict(srcports=case.get("srcports", ""), dstports=case.get("dstports", ""), line=case["line"],
+                      platform=case["platform"], port_nr=case["port_nr"], port_count=case["port_count"],
+                      port_range=case["port_range"])
+        DOCUMENTED_DEFAULTS_IN_FORCE.clear()
+        if case.get("omit_defaults"):
+            # keywords whose value equals the documented default are left out
+            for key, default in (("port_range", True), ("port_nr", False), ("srcports", ""), ("dstports", "")):
+                if kwargs[key] == default and kwargs[key] is default or (key in ("srcports", "dstports") and kwargs[key] == ""):
+                    kwargs.pop(key)
+                    DOCUMENTED_DEFAULTS_IN_FORCE.add(key)
+            ctx.count("calls_relying_on_documented_defaults")
         try:
-            cisco_acl.range_ports(srcports=case.get("srcports", ""), dstports=case.get("dstports", ""), line=case["line"],
-                                  platform=case["platform"], port_nr=case["port_nr"], port_count=case["port_count"],
-                                  port_range=case["port_range"])
+            cisco_acl.range_ports(**kwargs)
         except ValueError as ex:
             if expect:
                 ctx.count("rejected_as_expected")
@@ -274,6 +288,12 @@ def _request(rng, lo, hi, small_bias=True, max_width=40, overlap=False, hyphen_b
         used = intervals.union(used, cand)
         parts.append((str(a) if rng.random() < 0.85 else f"{a}-{a}") if a == b else f"{a}-{b}")
     rng.shuffle(parts)
+    if overlap and rng.random() < 0.4:
+        # two single ports directly followed by the range between them (the ports are requested twice: the set is what counts)
+        a = rng.choice([20, 21, 80, 443, 1000, rng.randint(lo + 1, hi - 60)])
+        b = min(hi, a + rng.choice([2, 2, 5, 50]))
+        pos = rng.randint(0, len(parts))
+        parts[pos:pos] = [str(a), str(b), f"{a}-{b}"]
     if rng.random() < 0.12:  # blanks around commas and hyphens (same request, other spelling)
         if hyphen_blanks:  # range_ports takes them; range_protocols refuses them with a value error (not judged)
             parts = [p.replace("-", rng.choice([" - ", " -", "- "])) if rng.random() < 0.5 else p for p in parts]
@@ -326,6 +346,8 @@ def gen_cases(ctx):
         port_range = rng.random() < 0.6
         case = {"k": "ports", "platform": platform, "line": line, "ops": ops, "port_nr": rng.random() < 0.4,
                 "port_count": rng.choice([1, 1, 2, 3, 4, 6]), "port_range": port_range}
+        if rng.random() < 0.3:
+            case["omit_defaults"] = True
         for side in ("src", "dst"):
             if sides in (side, "both"):
                 top = ops[side]
